@@ -324,6 +324,7 @@ namespace plan
     void check_justification();
     void check_temporal();
     void check_objects(int units_read);
+    void check_domains_after_read(int units_read);
     void check_timelines();
   };
 } // namespace plan
